@@ -143,7 +143,14 @@ func (g *pg) strExpr(depth int) lang.Expr {
 // cond: an expression used in a truth-consuming position.
 func (g *pg) cond(depth int) lang.Expr {
 	if g.o.OptBias && g.chance("constcond", 25) {
-		switch g.pick("cck", 5) {
+		switch g.pick("cck", 7) {
+		case 5, 6:
+			// one literal of any kind on both sides of any comparison: two
+			// loads of one constant
+			lits := []lang.Expr{lang.Lit{V: lang.Str("a")}, lang.Lit{V: lang.Str("")}, lang.Lit{V: lang.Float(2.5)}, lang.Lit{V: lang.Float(0)}, lang.Lit{V: lang.Int(70000)},
+				lang.Lit{V: lang.Regexp("a")}, lang.Lit{V: lang.Regexp("(?i)^re")}, lang.ArrayLit{Elems: []lang.Expr{lang.Lit{V: lang.Int(1)}}}, lang.Lit{V: lang.Bool(true)}, lang.Name{N: lang.NullName}}
+			a := lits[g.pick("samelit", len(lits))]
+			return lang.Binary{Op: rapid.SampledFrom([]string{"==", "!=", "<", "<=", ">", ">=", "~=", "in", "&&", "||"}).Draw(g.t, "sameop"), L: a, R: a}
 		case 0:
 			return lang.Binary{Op: "==", L: g.intLit(), R: g.intLit()}
 		case 1:
